@@ -438,3 +438,81 @@ seed("c09-bicgstab-zero-norm-after-use", "C09", SP, """        if normb == 0.0 {
 
         for i in 1..=max_iter {
             rho_1 = rtilde.dot( &r );""", "zero-norm/solve_bicgstab")
+
+# ---------------------------------------------------------------- C18
+seed("c18-restore-omitted", "C18", FUN, """            let f_new = func( state.clone() ); 
+            state[i] -= delta;
+            jac.set_col( i, ( f_new - f.clone() ) / delta );""", """            let f_new = func( state.clone() ); 
+            jac.set_col( i, ( f_new - f.clone() ) / delta );""", "perturb-restore")
+seed("c18-shape-transposed", "C18", FUN, "let mut jac = Mat64::new( m, n, 0.0 );", "let mut jac = Mat64::new( n, m, 0.0 );", "shape")
+seed("c18-quotient-reversed", "C18", FUN, "jac.set_col( i, ( f_new - f.clone() ) / delta );", "jac.set_col( i, ( f.clone() - f_new ) / delta );", "quotient")
+seed("c18-restore-wrong-index", "C18", FUN, """            let f_new = func( state.clone() ); 
+            state[i] -= delta;
+            jac.set_col( i, ( f_new - f.clone() ) / delta );""", """            let f_new = func( state.clone() ); 
+            state[0] -= delta;
+            jac.set_col( i, ( f_new - f.clone() ) / delta );""", "perturb-restore")
+seed("c18-cmplx-divisor", "C18", FUN, "jac.set_col( i, ( f_new - f.clone() ) / Cmplx::new( delta, 0.0 ) );", "jac.set_col( i, ( f_new - f.clone() ) / Cmplx::new( 0.0, delta ) );", "quotient")
+seed("c18-neutral-restore-after-store", "C18", FUN, """            state[i] += delta;
+            let f_new = func( state.clone() ); 
+            state[i] -= delta;
+            jac.set_col( i, ( f_new - f.clone() ) / delta );""", """            state[i] += delta;
+            let f_new = func( state.clone() ); 
+            jac.set_col( i, ( f_new - f.clone() ) / delta );
+            state[i] -= delta;""", "SILENT", "neutral: restoring after the column is stored is behaviour-preserving")
+seed("c18-loop-m", "C18", FUN, """        let mut jac = Mat64::new( m, n, 0.0 );
+        for i in 0..n {""", """        let mut jac = Mat64::new( m, n, 0.0 );
+        for i in 0..m {""", "columns")
+seed("c18-setcol-rows", "C18", OPS, 'if self.cols <= col { panic!( "Matrix range error in set_col" ); }',
+     'if self.rows <= col { panic!( "Matrix range error in set_col" ); }', "columns/callee", "the original defect")
+
+
+# ---------------------------------------------------------------- neutral (behaviour-preserving) edits: the rules must stay silent
+seed("n-c03-rows-getter", "C03", OPS, """        if self.cols <= col { panic!( "Matrix range error in get_col" ); }
+        let mut result = Vector::<T>::new( self.rows, T::zero() );
+        for i in 0..self.rows {""", """        if self.cols() <= col { panic!( "Matrix range error in get_col" ); }
+        let mut result = Vector::<T>::new( self.rows(), T::zero() );
+        for i in 0..self.rows() {""", "SILENT", "rows <-> rows()")
+seed("n-c03-let-subexpr", "C03", OPS, "            result[ j ] = self.mat[ row * self.cols + j ];", "            let base = row * self.cols;\n            result[ j ] = self.mat[ base + j ];", "SILENT", "introducing a let")
+seed("n-c20-guard-negated-form", "C20", OPS, 'if self.rows <= row { panic!( "Matrix range error in get_row" ); }', 'if !( row < self.rows ) { panic!( "Matrix range error in get_row" ); }', "SILENT", "a <= b  <->  !(b < a)")
+seed("n-c20-guard-assert", "C20", OPS, 'if self.rows <= row { panic!( "Matrix range error in fill_row" ); }', 'assert!( row < self.rows, "Matrix range error in fill_row" );', "SILENT", "if c {panic} <-> assert!(!c)")
+seed("n-c20-ne-as-not-eq", "C20", ARI, 'if self.rows != plus.rows { panic!( "Matrix row dimensions do not agree (+)." ); }', 'if !( self.rows == plus.rows ) { panic!( "Matrix row dimensions do not agree (+)." ); }', "SILENT", "a != b <-> !(a == b)")
+seed("n-c03-loop-order", "C03", ARI, """        for i in 0..result.rows() {
+            for j in 0..result.cols() {
+                result[(i,j)] = self[(i,j)] + plus[(i,j)];
+            }
+        }""", """        for j in 0..result.cols() {
+            for i in 0..result.rows() {
+                result[(i,j)] = self[(i,j)] + plus[(i,j)];
+            }
+        }""", "SILENT", "loop interchange")
+seed("n-c13-let-for-den", "C13", CM, "Self::Output::new( real / denominator.clone(), imag / denominator )", "let re = real / denominator.clone();\n        let im = imag / denominator;\n        Self::Output::new( re, im )", "SILENT", "introducing lets")
+seed("n-c13-commuted-product", "C13", CM, "let imag = self.real * times.imag + self.imag * times.real;", "let imag = times.imag * self.real + self.imag * times.real;", "SILENT", "commuted factors: IEEE multiplication is commutative")
+seed("n-c01-swap-arg-order", "C01", SV, "        x.swap( pivot, k );", "        x.swap( k, pivot );", "SILENT", "swap is symmetric")
+seed("n-c17-renamed-var", "C17", NW, """            let dx = func(current) / deriv;
+            current -= dx;
+            if dx.abs() <= self.tol {
+                return Ok( current );
+            }
+        }
+        Err( current ) 
+    }
+}
+
+impl Newton<Cmplx> {""", """            let step = func(current) / deriv;
+            current -= step;
+            if step.abs() <= self.tol {
+                return Ok( current );
+            }
+        }
+        Err( current ) 
+    }
+}
+
+impl Newton<Cmplx> {""", "SILENT", "renaming")
+seed("n-c08-cg-scalar-left", "C08", SP, "            r -= q.clone() * alpha;", "            r -= alpha * q.clone();", "SILENT", "V*c <-> c*V")
+seed("n-c05-size-vs-n", "C05", TR, "        for i in 1..self.size() - 1 {\n            result[ i ]", "        for i in 1..self.n - 1 {\n            result[ i ]", "SILENT", "size() <-> n")
+seed("n-c16-while-join", "C16", VF, "            let mut result: f64 = 0.0;\n            for thread in threads {\n                result += thread.join().unwrap();\n            }\n            result", "            let mut total: f64 = 0.0;\n            for handle in threads {\n                total += handle.join().unwrap();\n            }\n            total", "SILENT", "renaming")
+seed("n-c06-ck-inline", "C06", SP, """        if self.rows <= row { panic!( "Sparse matrix get: row range error." ); }
+        if self.cols <= col { panic!( "Sparse matrix get: col range error." ); }""", """        if self.cols <= col { panic!( "Sparse matrix get: col range error." ); }
+        if self.rows <= row { panic!( "Sparse matrix get: row range error." ); }""", "SILENT", "reordering independent guards")
+seed("n-c04-mm-let", "C04", BD, "        let tmploop = std::cmp::min( m1 + m2 + 1, n - k );\n            for j in std::cmp::max( 0, - k )..tmploop {", "        let lo = std::cmp::max( 0, - k );\n            let tmploop = std::cmp::min( n - k, m1 + m2 + 1 );\n            for j in lo..tmploop {", "SILENT", "let + commuted min")
